@@ -181,10 +181,13 @@ def run(chk):
     finding_sq = finding_sc = None
     for order, xif2, (q_from, nf_from, q_to, nf_to) in itertools.product(
             (1, 2, 3, 4), (Fraction(1), Fraction(2)),
-            ((Fraction(50), 4, Fraction(150), 5), (Fraction(150), 5, Fraction(50), 4), (Fraction(5), 3, Fraction(500), 5), (Fraction(5000), 6, Fraction(50), 4))):
+            ((Fraction(50), 4, Fraction(150), 5), (Fraction(150), 5, Fraction(50), 4), (Fraction(5), 3, Fraction(500), 5), (Fraction(5000), 6, Fraction(50), 4),
+             # the reference scale ON a matching scale, on the far side of the target: the first segment is empty, the matching is not
+             (Fraction(100), 5, Fraction(50), 4), (Fraction(100), 4, Fraction(150), 5))):
         pe = PE(src)
         pe.overrides[f"{MM}.ker_dispatcher"] = lambda p, a, k: dag.fn("K", dag.tonode(a[0]), dag.tonode(a[1]), dag.const(a[4]))
-        pe.ext["numpy.isclose"] = lambda p, a, k: False
+        if q_from not in W:
+            pe.ext["numpy.isclose"] = lambda p, a, k: False
         sc = SC(order, W)
         # thresholds_ratios == 1 in scale, symbolic in the logarithm: the mass path then has to switch where the coupling does
         pe.ext["numpy.log"] = lambda p, a, k: dag.fn("log", dag.tonode(a[0]))
@@ -212,7 +215,7 @@ def run(chk):
             else:
                 hq_nf = nf if down else nf + 1       # flavour number of the crossed quark
                 tgt = W[hq_nf - 4]                    # the code's choice for unit ratios: the coupling wall itself
-            Kf = dag.fn("K", dag.const(tgt), dag.const(cur), dag.const(nf))
+            Kf = dag.fn("K", dag.const(tgt), dag.const(cur), dag.const(nf)) if tgt != cur else dag.const(1)    # an empty segment does not run
             want_m = dag.mul(want_m, Kf)
             if not last:
                 pe2 = PE(src)
